@@ -445,18 +445,25 @@ class _HashableProxy:
 
   module_ref: weakref.ref
   hash_key: int
+  fingerprint: Any = None
 
   @classmethod
   def from_module(cls, module: Module) -> '_HashableProxy':
     fingerprint = _module_fingerprint(module)
     hash_key = hash(fingerprint)
-    return cls(weakref.ref(module), hash_key)
+    return cls(weakref.ref(module), hash_key, fingerprint)
 
   def __hash__(self):
     return self.hash_key
 
   def __eq__(self, other):
-    return isinstance(other, _HashableProxy) and self.hash_key == other.hash_key
+    # equal hashes are not enough: hash(-1) == hash(-2) in CPython, so two
+    # modules that differ in an attribute could share a trace.
+    return (
+      isinstance(other, _HashableProxy)
+      and self.hash_key == other.hash_key
+      and self.fingerprint == other.fingerprint
+    )
 
   @property
   def module(self):
